@@ -25,6 +25,10 @@ TNext ==
   \/ IsEv("PShut") /\ PeerShut(Ev.how)
   \/ IsEv("Recv") /\ RecvCall(Ev.len, Ev.runs)
   \/ IsEv("RecvRet") /\ RecvRet(Ev.c)
+  \/ IsEv("Fwd") /\ Forward(Ev.len, Ev.runs)
+  \/ IsEv("Shrink") /\ UNCHANGED cvars              \* shrinkSendBuffer() / shrinkRecvBuffer(): no effect on the streams
+  \/ IsEv("Bind") /\ UNCHANGED cvars
+  \/ IsEv("Unbind") /\ UNCHANGED cvars
   \/ IsEv("Complete") /\ SendComplete
   \/ IsEv("CompleteRet") /\ UNCHANGED cvars          \* callback brackets: only tell which calls were made from inside
   \/ IsEv("CloseRet") /\ UNCHANGED cvars
